@@ -181,4 +181,10 @@ POISON = {
 # only used where a parser failure is wanted, never where one would be judged.
 NATURAL_PARSER_FAIL = {
     "natural_dash_tab": b"-\t",
+    # each of these makes the pinned parser fail in a different internal state
+    "natural_requeue_pending": b"* \n>[foo]:\n# Leftover heading\n",  # lines still queued for re-parsing
+    "natural_lrd_in_quote": b"> [a]:\n>\n",  # after a pragma/definition line has been collected
+    "natural_lrd_then_nesting": b"[foo]: /url\n\n>>- one\n>>\n  >  >   two",  # a link definition is already registered
+    "natural_lrd_list_heading": b"[foo]:\n- ## Some text",
+    "natural_pragma_then_fail": b"<!-- pyml disable-next-line md013,md009-->\n> [a]:\n>\n",
 }
